@@ -12,22 +12,41 @@ package validators
 //@ ensures idx: implies(result1 == nil, 0 <= result0 && result0 < len(receiver.RetVals))
 //@ loop 0 invariant fresh(typeNames)
 
-//@ func ReceiverValidator.validateSecurity props C04,C10,C14
+//@ func ReceiverValidator.validateSecurity props C04,C10,C14,C18
 //@ requires receiver != nil && receiver.Annotations != nil
 //@ requires implies(v.gleeceConfig != nil && v.gleeceConfig.RoutesConfig.AuthorizationConfig.EnforceSecurityOnAllRoutes, v.parentController != nil && v.parentController.Struct.Annotations != nil)
 //@ ensures off: implies(v.gleeceConfig == nil || !v.gleeceConfig.RoutesConfig.AuthorizationConfig.EnforceSecurityOnAllRoutes, result0 == nil && result1 == nil)
 //@ ensures iff: implies(result1 == nil && v.gleeceConfig != nil && v.gleeceConfig.RoutesConfig.AuthorizationConfig.EnforceSecurityOnAllRoutes, (result0 != nil) == (metadata.secCount(*receiver.Annotations) == 0 && metadata.secCount(*v.parentController.Struct.Annotations) == 0 && v.gleeceConfig.OpenAPIGeneratorConfig.DefaultRouteSecurity == nil))
 //@ ensures sev: implies(result0 != nil, result0.Severity == diagnostics.DiagnosticError && result0.Code == string(diagnostics.DiagReceiverMissingSecurity))
+// the diagnostic names the file that holds the offending method
+//@ ensures loc: implies(result0 != nil, result0.FilePath == receiver.Annotations.fileName)
 
-//@ func ReceiverValidator.validateParamsCombinations props C10,C14
+//@ func ReceiverValidator.validateParamsCombinations props C10,C14,C18
 //@ requires newParam.FVersion != nil
 //@ ensures (result != nil) == ((newParamType == definitions.PassedInBody && exists(i, 0, len(funcParams), funcParams[i].PassedIn == definitions.PassedInBody || funcParams[i].PassedIn == definitions.PassedInForm)) || (newParamType == definitions.PassedInForm && exists(i, 0, len(funcParams), funcParams[i].PassedIn == definitions.PassedInBody)))
 //@ ensures implies(result != nil, result.Severity == diagnostics.DiagnosticError)
+//@ ensures loc: implies(result != nil, result.FilePath == newParam.FVersion.Path && result.Range == newParam.Range)
 
-//@ func ReceiverValidator.validateBodyParam props C10,C14
+//@ func ReceiverValidator.validateBodyParam props C10,C14,C18
 //@ requires receiver != nil && receiver.Annotations != nil && param.Type.Root != nil && param.Annotations != nil
 //@ ensures (result != nil) == (param.Type.SymbolKind.IsBuiltin() && !(metadata.typeRefKind(param.Type.Root) == metadata.TypeRefKindSlice || metadata.typeRefKind(param.Type.Root) == metadata.TypeRefKindArray))
 //@ ensures implies(result != nil, result.Severity == diagnostics.DiagnosticError && result.Code == string(diagnostics.DiagReceiverInvalidBody) && result.Range == param.Range)
+//@ ensures loc: implies(result != nil, result.FilePath == receiver.Annotations.fileName)
+
+//@ func isPrimitiveAlias props C10,C14
+//@ requires implies(param.Type.SymbolKind == common.SymKindAlias, param.Type.Root != nil)
+//@ ensures implies(param.Type.SymbolKind != common.SymKindAlias, !result0 && !result1)
+//@ ensures implies(result1, result0)
+
+// Slices and arrays are accepted in the query only; other header/path/query/form parameters must be primitives,
+// enumerations or aliases of primitives. Every diagnostic is an error naming the method's file and the parameter's range.
+//@ func ReceiverValidator.validateNonBodyParam props C10,C14,C18
+//@ requires receiver != nil && receiver.Annotations != nil && param.Type.Root != nil && param.Annotations != nil
+//@ ensures iter: implies((metadata.typeRefKind(param.Type.Root) == metadata.TypeRefKindSlice || metadata.typeRefKind(param.Type.Root) == metadata.TypeRefKindArray) && passedIn != definitions.PassedInQuery && passedIn != definitions.PassedInBody, result != nil)
+//@ ensures prim: implies(result == nil, (gast.universeType(param.Type.Name) || param.Type.SymbolKind == common.SymKindEnum || param.Type.SymbolKind == common.SymKindAlias) && !(param.Type.PkgPath == "" && param.Type.Name == "error") && !(param.Type.PkgPath == "" && strings.HasPrefix(param.Type.Name, "map[")))
+//@ ensures ok: implies(!((metadata.typeRefKind(param.Type.Root) == metadata.TypeRefKindSlice || metadata.typeRefKind(param.Type.Root) == metadata.TypeRefKindArray) && passedIn != definitions.PassedInQuery && passedIn != definitions.PassedInBody) && (gast.universeType(param.Type.Name) || param.Type.SymbolKind == common.SymKindEnum) && !(param.Type.PkgPath == "" && param.Type.Name == "error") && !(param.Type.PkgPath == "" && strings.HasPrefix(param.Type.Name, "map[")), result == nil)
+//@ ensures sev: implies(result != nil, result.Severity == diagnostics.DiagnosticError && result.Code == string(diagnostics.DiagReceiverParamNotPrimitive))
+//@ ensures loc: implies(result != nil, result.FilePath == receiver.Annotations.fileName && result.Range == param.Range)
 
 //@ func getParamSchemaNameOrFallback props C10,C14
 //@ requires param.Annotations != nil
